@@ -123,9 +123,9 @@ static void concurrent_purity(long caseno) {
     vf_count("evaluations", NT * 12 * 6); vf_count("concurrent_hash_rounds", NT * 12); vf_distinct("distinct", VF_H0 + 777001);
 }
 static void file_ranges(long caseno) {
-    static const size_t SIZES[] = {0, 1, 32 * 1024 - 1, 32 * 1024, 32 * 1024 + 1, 100 * 1024};
+    static const size_t SIZES[] = {0, 1, 32 * 1024 - 1, 32 * 1024, 32 * 1024 + 1, 100 * 1024, (1u << 20) + 777, (5u << 20) + 13};
     char path[128]; snprintf(path, sizeof path, "h_hash-%d-%d.bin", VF.shard, (int)getpid());
-    for (int si = 0; si < 6; si++) {
+    for (int si = 0; si < 8; si++) {
         size_t fs = SIZES[si];
         unsigned char *content = hm_alloc(fs + 1); fill(content, fs, 0);
         int fd = open(path, O_WRONLY | O_CREAT | O_TRUNC, 0600); if (fd < 0 || write(fd, content, fs) != (ssize_t)fs) { fprintf(stderr, "h_hash: cannot write %s\n", path); exit(2); } close(fd);
@@ -158,7 +158,7 @@ static void file_ranges(long caseno) {
         hm_free(content);
     }
     unlink(path);
-    vf_sample("file ranges: sizes 0/1/32767/32768/32769/102400 x (whole, to-end, inner, out-of-range) offset/length classes");
+    vf_sample("file ranges: sizes 0/1/32767/32768/32769/102400/1 MiB+777/5 MiB+13 x (whole, to-end, inner, out-of-range) offset/length classes");
 }
 
 int main(int argc, char **argv) {
